@@ -125,6 +125,8 @@ impl ParsingSource for LspParsingSource {
 
 struct ShutdownManager {
     handlers: HashMap<usize, Sender<()>>,
+    /// Set once the handlers have been invoked: whoever registers after that is told right away
+    shutting_down: bool,
 }
 
 static HANDLER_ID: AtomicUsize = AtomicUsize::new(0);
@@ -155,6 +157,7 @@ impl ShutdownManager {
     fn new() -> Self {
         Self {
             handlers: HashMap::new(),
+            shutting_down: false,
         }
     }
 }
@@ -189,11 +192,15 @@ impl LspContext {
     pub fn add_shutdown_handler(&mut self) -> ShutdownReceiverHandle {
         let (s, r) = crossbeam_channel::bounded(1);
         let handler_id = HANDLER_ID.fetch_add(1, Ordering::Relaxed);
-        self.shutdown_manager
-            .lock()
-            .unwrap()
-            .handlers
-            .insert(handler_id, s);
+        {
+            let mut mgr = self.shutdown_manager.lock().unwrap();
+            if mgr.shutting_down {
+                // Too late to be invoked (e.g. a debugger that attaches between 'shutdown' and 'exit'), so this is it
+                let _ = s.send(());
+            } else {
+                mgr.handlers.insert(handler_id, s);
+            }
+        }
         ShutdownReceiverHandle {
             manager: self.shutdown_manager.clone(),
             receiver: r,
@@ -205,6 +212,7 @@ impl LspContext {
         // Grab the handlers and unlock the shutdown manager
         let handlers = {
             let mut mgr = self.shutdown_manager.lock().unwrap();
+            mgr.shutting_down = true;
             std::mem::take(&mut mgr.handlers)
         };
         for sender in handlers.values() {
